@@ -203,7 +203,12 @@ FIRST_STATEMENTS = [
     "@first\n@second(arg)\nasync def inner():\n    pass\n",
     "'''doc'''\nx = 1\n",
     "if arg:\n    pass\n",
+    "@ deco(arg)\ndef inner():\n    pass\n",              # white space may follow the @
+    "@(\n deco)\ndef inner():\n    pass\n",               # the decorator expression may start on a later line than its @
 ]
+
+
+EXACT = {}      # text -> (what the helper returned, start of the first token of the body): filled by first_statement_layouts
 
 
 def first_statement_layouts(repo):
@@ -222,7 +227,12 @@ def first_statement_layouts(repo):
             body = ast.parse(text).body
             st = body[0]
             decs = getattr(st, 'decorator_list', [])
-            first = (decs[0].lineno, decs[0].col_offset - 1) if decs else (st.lineno, st.col_offset)
+            first = (st.lineno, st.col_offset)
+            if decs:
+                # the first token of a decorated definition is the `@` of its first decorator (no ast node has its position)
+                import io, tokenize
+                tok = next(t for t in tokenize.generate_tokens(io.StringIO(text).readline) if t.type == tokenize.OP and t.string == '@')
+                first = tok.start
             it = Interp(repo, facts)
             it.reset_path([])
             try:
@@ -234,6 +244,7 @@ def first_statement_layouts(repo):
                 out.append((text, None, str(e)))
                 continue
             ok = isinstance(got, tuple) and len(got) == 2 and all(isinstance(x, int) for x in got) and tuple(got) <= first
+            EXACT[text] = (got, first)
             out.append((text, ok, 'get_first_body_node_loc gives %r for a body starting with %r, whose first token is at %r: names '
                         'visible from that position on (the parameters) are missing at the reads in front of it'
                         % (got, text.splitlines()[0] + ' / ' + text.splitlines()[1], first)))
